@@ -42,19 +42,14 @@ META = {
 
 WM_IMPORTS = "Require Import Verif.Gen.Gen_id_allocator Verif.ID.IDLitmusDefs."
 WM_LITMUS = [
-    ("link-publication", "id_link_src_safe", "id_link_src", "id_link_bad",
-     "deallocate's push CAS lost its release or allocate's head load its acquire: an allocate that sees the value on "
-     "top can read a stale link (_free_next_value) and install a wrong free-list head"),
-    ("link-publication-failed-cas", "id_link_casfail_src_safe", "id_link_casfail_src", "id_link_bad",
-     "the reload done by allocate's failed pop CAS is not an acquire (or the push CAS not a release): the retry can "
-     "read a stale link"),
-    ("link-publication-chain", "id_chain_src_safe", "id_chain_src", "id_chain_bad",
-     "the link of a value is not visible to an allocate that reaches it through a later push and a pop"),
-    ("handover", "id_handover_src_safe", "id_handover_src", "id_handover_bad",
+    ("link-publication", "id_link_group_safe", "id_link_group_prog", "id_link_group_bad",
+     "deallocate's push CAS lost its release, allocate's head load its acquire, or the reload done by allocate's failed "
+     "pop CAS its acquire: an allocate that sees a value on top (directly, after a failed CAS, or through a later push "
+     "and pop) can read a stale link (_free_next_value) and install a wrong free-list head"),
+    ("handover", "id_handover_group_safe", "id_handover_group_prog", "id_handover_bad",
      "the accesses of the previous owner of an id value to the resource it names do not happen-before those of the "
-     "next owner (data race across reuse): deallocate's CAS must release, allocate's head load acquire"),
-    ("handover-failed-cas", "id_handover_casfail_src_safe", "id_handover_casfail_src", "id_handover_bad",
-     "data race across reuse when the next owner learnt the head through a failed pop CAS: its failure order must acquire"),
+     "next owner (data race across reuse): deallocate's CAS must release, allocate's head load and the reload of its "
+     "failed pop CAS must acquire"),
     ("deposit-item", "box_take_src_safe", "box_take_src", "box_take_bad",
      "deposit item not published to the taker although the client passes the id with release/acquire"),
 ]
